@@ -1,0 +1,8 @@
+//go:build !verif
+
+package node
+
+import "time"
+
+// verifReadIndexTimeout is the identity outside verification builds (see lin_timeout_verif.go).
+func verifReadIndexTimeout(def time.Duration) time.Duration { return def }
